@@ -110,7 +110,87 @@ class Ex:
         _bad(fn, "no return")
 
 
+class ExVec:
+    """`_log_prob` of a prior with SCALAR hyper-parameters (shape [1] after `view(-1)`) evaluated on a value with `d`
+    trailing elements.  Every sub-expression carries its extent along the event dimension:
+      'param'  — built from hyper-parameters only (extent 1),
+      'value'  — depends on `x` (extent d, hyper-parameters broadcast),
+      'total'  — after `.sum(-1)` (no event dimension).
+    `.sum(-1)` of a 'value' expression is the sum of the per-coordinate expression over the d coordinates; of a 'param'
+    expression it is the expression itself (ONE copy).  Returns IR over the variable x, with ('sumv', e) nodes."""
+
+    def __init__(self, ex, xname):
+        self.ex = ex
+        self.xname = xname
+
+    def kind(self, node, env):
+        """(extent, IR)"""
+        if isinstance(node, ast.Name) and node.id in env:
+            return env[node.id]
+        if isinstance(node, ast.Constant):
+            return ("param", lean_num(node.value))
+        if isinstance(node, ast.UnaryOp) and isinstance(node.op, ast.USub):
+            k, e = self.kind(node.operand, env)
+            return (k, ("neg", e))
+        if isinstance(node, ast.BinOp):
+            ops = {ast.Add: "+", ast.Sub: "-", ast.Mult: "*", ast.Div: "/"}
+            if type(node.op) not in ops:
+                _bad(node, "operator outside vocabulary (vector form)")
+            (k1, e1), (k2, e2) = self.kind(node.left, env), self.kind(node.right, env)
+            ks = {k1, k2}
+            if ks <= {"param"}:
+                k = "param"
+            elif ks <= {"param", "value"}:
+                k = "value"
+            elif ks <= {"total", "param"} and "total" in ks:
+                k = "total"       # a reduced quantity combined with an extent-1 quantity: one copy
+            else:
+                _bad(node, "mixing reduced and unreduced quantities outside vocabulary")
+            return (k, ("bin", ops[type(node.op)], e1, e2))
+        if isinstance(node, ast.Attribute) and isinstance(node.value, ast.Name) and node.value.id == "self":
+            return ("param", self.ex.expr(node, {}))
+        if isinstance(node, ast.Call):
+            f = _src(node.func)
+            a = node.args
+            if f == "self.tails.log_prob" and len(a) == 1:
+                k, e = self.kind(a[0], env)
+                return (k, ("app3", self.ex.fields["tails"], e))
+            if isinstance(node.func, ast.Attribute):
+                m = node.func.attr
+                k, e = self.kind(node.func.value, env)
+                if m in ("abs", "abs_") and not a:
+                    return (k, ("app", "TransFn.abs", e))
+                if m == "clamp" and not a and [kw.arg for kw in node.keywords] == ["min"]:
+                    return (k, ("app2", "max", e, self.ex.expr(node.keywords[0].value, {})))
+                if m == "sum" and len(a) == 1 and _src(a[0]) == "-1" and not node.keywords:
+                    if k == "value":
+                        return ("total", ("sumv", e))
+                    if k == "param":
+                        return ("total", e)
+                    _bad(node, "sum(-1) of an already reduced quantity")
+            _bad(node, "call outside vocabulary (vector form)")
+        _bad(node, "expression outside vocabulary (vector form)")
+
+    def body(self, fn):
+        env = {self.xname: ("value", ("var", "x"))}
+        for st in fn.body:
+            if isinstance(st, ast.Expr) and isinstance(st.value, ast.Constant):
+                continue
+            if isinstance(st, ast.Assign) and isinstance(st.targets[0], ast.Name):
+                env[st.targets[0].id] = self.kind(st.value, env)
+                continue
+            if isinstance(st, ast.Return):
+                k, e = self.kind(st.value, env)
+                if k != "total":
+                    _bad(st, "the returned log density is not reduced over the event dimension")
+                return e
+            _bad(st, "statement outside vocabulary (vector form)")
+        _bad(fn, "no return")
+
+
 def emit_p(e):
+    if isinstance(e, tuple) and e[0] == "sumv":
+        return f"(xs.foldl (fun acc x => acc + {emit_p(e[1])}) ((0 : Nat) : α))"
     if isinstance(e, tuple) and e[0] == "app3":
         mu, sg = e[1]
         return f"(Priors.normalLogProb {emit_p(mu)} {emit_p(sg)} {emit_p(e[2])})"
@@ -147,7 +227,7 @@ def generate(repo, out_path):
     if "self.tails = NormalPrior(torch.zeros_like(_a), _sigma, validate_args=validate_args)" not in init:
         raise TranslateError("SmoothedBoxPrior.__init__: tails is not NormalPrior(zeros_like(a), sigma)")
     for buf, var in (("a", "_a"), ("b", "_b")):
-        if f"self.register_buffer('{buf}', {var})" not in init:
+        if f"self.register_buffer('{buf}', {var})" not in init and f"self.register_buffer('{buf}', {var}.clone())" not in init:
             raise TranslateError(f"SmoothedBoxPrior.__init__: buffer {buf} is not registered from {var}")
     if "self.register_buffer('sigma', _sigma.clone())" not in init:
         raise TranslateError("SmoothedBoxPrior.__init__: buffer sigma outside vocabulary")
@@ -162,6 +242,10 @@ def generate(repo, out_path):
     body = ex.body(_fn(c, "_log_prob"), {"x": ("var", "x")})
     A("/-- `SmoothedBoxPrior._log_prob`, one coordinate (`tails = Normal(0, σ)`) -/")
     A(f"def smoothedBoxLogProb (a b σ x : α) : α := {emit_p(body)}")
+    vbody = ExVec(ex, "x").body(_fn(c, "_log_prob"))
+    A("/-- `SmoothedBoxPrior._log_prob` of a box with SCALAR `a, b, σ` on a value with trailing elements `xs` (the hyper-")
+    A("parameters broadcast; `.sum(-1)` of a quantity that depends on `x` adds the coordinates, of one that does not is ONE copy) -/")
+    A(f"def smoothedBoxLogProbVec (a b σ : α) (xs : List α) : α := {emit_p(vbody)}")
     A("")
     # ---- horseshoe
     src = open(os.path.join(repo, "gpytorch/priors/horseshoe_prior.py")).read()
